@@ -22,6 +22,7 @@ RULE = (
     "menu (masked configuration bytes, checksum setting bytes, guard marker bytes, environmental key bytes) must end "
     "in ValueError or in a configuration whose recomputed checksum equals the stored one; the metadata iterator must "
     "then report no unmasked configuration. non-trivial = every case (each is a distinct protected payload)"
+    '. Added: marker alignments around 8192 / 16384, XorEncoded and PE containers with offsets checked, explicit single-byte key lists, a configuration that fills most of the protected area. '
 )
 ASSUMPTIONS = [
     "the configuration is padded with zeros to 6144 bytes (constant padding is what makes key recovery possible at all)",
